@@ -6,6 +6,9 @@ ALL = ["C%02d" % i for i in range(1, 21)]
 
 # property -> (technique, decided clauses (short), not decided / assumptions)
 CLAIMED = {
+ "C01": ("value-identity, dominance, lockset, who-may-call and buffer-alias value-flow analyses over go/ssa",
+         "C01.1 seq atomic-only; C01.2 pending-table key = frame seq = one atomic increment, stored before every write; C01.3 reply bound by the frame's own seq, body decoded into that call's result, metadata copied not aliased; C01.4 every WriteMessage under writeLock, Pack only from WriteMessage; C01.5 single reader, Unpack only from ReadMessage; C01.6 no use of a context after putContext; C01.7 pooled controllers: Get/bind/Call/Put order, fresh controller per pool object; C01.8 nothing derived without copy from a decoder's input buffer is stored into the decoded value (taint over []byte/string/url.Values/reflect.Value with library alias summaries)",
+         "interleaving-level non-interference (the rules give the lock/ownership preconditions, not a proof over schedules); internals of sync.Map, encoding/json, encoding/xml, protobuf and thrift decoders (assumed to copy); third-party Proto implementations"),
  "C15": ("field-based, context-insensitive value-flow (taint) analysis over go/ssa + VTA/CHA call edges: sources = every package-level *Status, sinks = status mutators",
          "C15.1 no mutator (SetCode/SetMsg/SetCause/Clear/DecodeQuery/UnmarshalJSON/TagStack/store through pointer) in shipped code is applied to a value that may alias a predefined status; C15.2 the decode-into-message sites own their status (origin of every message handed to ReadMessage/Unpack; no SetStatus on pooled inputs; Status(true) allocates); C15.3 sentinels assigned only by their initialiser",
          "user code and third-party plugins; statuses reaching user handlers by reference (documented as shared); aliasing is field-based (over-approximate): a report names the flow path"),
